@@ -700,6 +700,10 @@ func (e *Engine) timeBefore(st *State, t, u TimeV) *Term {
 	if t.Inst != nil || u.Inst != nil {
 		panic(unsupported("comparison of an abstract instant with a civil time"))
 	}
+	if e.opt.Zone == 2 && t.Rel != nil && u.Rel != nil {
+		// instants relative to the anchor day (correct inside an overlap, where civil fields repeat)
+		return c.Or(c.BVSlt(t.Rel, u.Rel), c.And(c.Eq(t.Rel, u.Rel), c.BVSlt(t.Ns, u.Ns)))
+	}
 	if t.UTC != u.UTC && e.opt.Zone != 0 {
 		panic(unsupported("comparison of times in different locations under a symbolic zone"))
 	}
@@ -868,6 +872,15 @@ func (e *Engine) timeToUTC(st *State, t TimeV) TimeV {
 func (e *Engine) civilAdd(st *State, t TimeV, d *Term) Value {
 	c := e.tc
 	secs, ok := e.exactDiv(d, 1000000000)
+	if !ok && t.Ns.IsConst() && t.Ns.C == 0 {
+		// a sub-second duration added to a whole second: only the nanoseconds change
+		if _, okms := e.exactDiv(d, 1000000); okms && !e.feasible(st, c.Not(e.inRange(d, 0, 999999999)), "Time.Add sub-second") {
+			st.assume(e.inRange(d, 0, 999999999))
+			out := t
+			out.Ns = d
+			return out
+		}
+	}
 	if !ok {
 		panic(unsupported("Time.Add with a duration that is not syntactically a whole number of seconds: " + trunc(d.SMT(), 400)))
 	}
@@ -915,8 +928,53 @@ func (e *Engine) timeSleep(st *State, fr *Frame, d *Term, pos token.Pos) []exit 
 	return e.schedSleep(st, fr, d, pos)
 }
 
+// secBefore: a's whole second lies before b's (both civil).
+func (e *Engine) secBefore(st *State, a, b TimeV) *Term {
+	c := e.tc
+	if e.opt.Zone == 2 && a.Rel != nil && b.Rel != nil {
+		return c.BVSlt(a.Rel, b.Rel)
+	}
+	if a.UTC != b.UTC && e.opt.Zone != 0 {
+		panic(unsupported("comparison of times in different locations under a symbolic zone"))
+	}
+	if e.opt.Zone == 2 && !a.UTC.IsTrue() {
+		panic(unsupported("comparison of local times without a known instant under zone view Z2"))
+	}
+	lt := c.False
+	for _, p := range [][2]*Term{{a.S, b.S}, {a.Mi, b.Mi}, {a.H, b.H}, {a.D, b.D}, {a.M, b.M}, {a.Y, b.Y}} {
+		lt = c.Or(c.BVSlt(p[0], p[1]), c.And(c.Eq(p[0], p[1]), lt))
+	}
+	return lt
+}
+
+// timeUnixMilli: Unix milliseconds as S*1000 + ms, where the epoch second S of each time is a variable
+// constrained only by its order relative to the epoch seconds of the other times seen (calendar arithmetic
+// is never bit-blasted; enough for comparisons, which is what the repo uses it for).
 func (e *Engine) timeUnixMilli(st *State, t TimeV) Value {
-	panic(unsupported("Time.UnixMilli"))
+	c := e.tc
+	e.needCivil(t, "UnixMilli")
+	ms, ok := e.exactDiv(t.Ns, 1000000)
+	if !ok {
+		if t.Ns.IsConst() {
+			ms = e.bv64(int64(t.Ns.C / 1000000))
+		} else {
+			panic(unsupported("UnixMilli of a time whose nanoseconds are not syntactically whole milliseconds"))
+		}
+	}
+	S := c.Fresh("epoch.s", SBV(64))
+	st.assume(e.inRange(S, 0, 1<<40))
+	for _, r := range st.epochs {
+		lt, gt := e.secBefore(st, t, r.t), e.secBefore(st, r.t, t)
+		st.assume(c.And(c.Implies(lt, c.BVSlt(S, r.S)), c.Implies(gt, c.BVSlt(r.S, S)), c.Implies(c.Not(c.Or(lt, gt)), c.Eq(S, r.S))))
+	}
+	st.epochs = append(st.epochs[:len(st.epochs):len(st.epochs)], epochRec{t, S})
+	e.stubsUsed["Time.UnixMilli: epoch seconds as order-constrained variables (years from 1970 on)"] = true
+	return c.BVAdd(c.BVMul(S, e.bv64(1000)), ms)
+}
+
+type epochRec struct {
+	t TimeV
+	S *Term
 }
 
 // ---- zone view Z2: the process zone is a two-interval zone (offset o1 before instant T, o2 from T on).
